@@ -249,6 +249,65 @@ theorem C13_parse_rejects (flt : String → Option FloatVal) (a : Option Bool) :
       | error x => cases x; rfl
       | ok s' => simp [he]
 
+/-! ## real messages: what `is_in_range` is told about a message is what the documentation says of its members -/
+
+/-- **P1 time of a message.** For every message whose members do not contradict each other, `get_p1_time()` yields
+a valid P1 time exactly when the documentation gives the message one, and then that one: the `p1_time` member of
+an ordinary message; for a sensor measurement `details.p1_time`, else `details.measurement_time` when (and only
+when) its declared time base is P1 time.  A measurement time in system, sender or GPS time is never a P1 time. -/
+theorem C13_message_p1_time (o : Obj) (h : o.unambiguous = true) : o.msg.p1? = o.docP1 :=
+  Obj.msg_p1_of_unambiguous o h
+
+/-- With contradictory members the value handed to `is_in_range` is still one of the message's own P1 members (or
+none): never a time in another base. -/
+theorem C13_message_p1_time_is_a_p1_member (o : Obj) (t : Int) (h : o.msg.p1? = some t) :
+    o.docP1 = some t ∨ ∃ d, o = .meas d ∧ d.source = .p1Time ∧ d.measurementTime = some t := by
+  cases o with
+  | raw => cases h
+  | plain p1 sys =>
+    left
+    cases p1 with
+    | none => cases h
+    | some x => cases x with
+      | none => cases h
+      | some t' => exact h
+  | meas d =>
+    obtain ⟨mt, src, p1⟩ := d
+    by_cases hs : src = .p1Time
+    · right
+      refine ⟨_, rfl, hs, ?_⟩
+      subst hs
+      cases mt with
+      | none => simp [Obj.msg, Obj.getP1Time, Msg.p1?] at h
+      | some t' => simpa [Obj.msg, Obj.getP1Time, Msg.p1?] using h
+    · left
+      cases p1 with
+      | none => simp [Obj.msg, Obj.getP1Time, Msg.p1?, hs] at h
+      | some t' =>
+        simp [Obj.msg, Obj.getP1Time, Msg.p1?, hs] at h
+        simp [Obj.docP1, h]
+
+/-- **System time of a message.** `get_system_time_ns()` yields the `system_time_ns` member, or a measurement time
+stamped on reception, and nothing (`None` or NaN) for every other message. -/
+theorem C13_message_system_time (o : Obj) : o.getSystemTimeNs.value = o.docSys := by
+  cases o with
+  | raw => rfl
+  | plain p1 sys => cases sys <;> rfl
+  | meas d =>
+    obtain ⟨mt, src, p1⟩ := d
+    by_cases hs : src = .timestampedOnReception <;> cases mt <;>
+      simp [Obj.getSystemTimeNs, Obj.docSys, SysTime.value, hs]
+
+/-- **Membership over real messages.** A fresh range shown messages with consistent members, whose documented P1
+times do not decrease, answers with the interval's verdicts for the messages *as documented*: a message that only
+has a system, sender or GPS time is handled by the rule for messages without P1 time and never moves the origin. -/
+theorem C13_is_in_range_on_messages (r : TimeRange) (retTs : Bool) (objs : List Obj) (hf : r.Fresh)
+    (hu : ∀ o ∈ objs, o.unambiguous = true) (hmono : Monotone (objs.map Obj.docMsg)) :
+    (r.run retTs (objs.map Obj.msg)).2 = (r.interval (objs.map Obj.docMsg)).seq (objs.map Obj.docMsg) := by
+  rw [TimeRange.run_congr retTs Obj.msg Obj.docMsg r
+    (fun o ho => by rw [Obj.msg_p1_of_unambiguous o (hu o ho), Obj.docMsg_p1])]
+  exact TimeRange.run_refines r retTs _ hf hmono
+
 /-! ## the hypotheses are satisfiable, and the statements say something -/
 
 /-- open start, first P1 time already past the end, then a message without P1 time: both rejected. -/
@@ -277,5 +336,17 @@ example : (TimeRange.new (.num (.fin 4)) (.num (.fin 12)) (some false) (some 40)
     .ok { start := some (.fin 46), stop := some 52, absolute := true, t0 := some 40, specified := true,
           started := false, ended := false } := by
   rfl
+
+/-- an IMU input stamped on reception at 5000 s (no P1 time yet) ahead of P1 times 10.0, 11.0, 12.0 s, relative
+`[1.0, 3.0)`: the origin is 10.0 s, not the reception time. -/
+example : ((TimeRange.new (.num (.fin 4)) (.num (.fin 12)) (some false) none).run false
+    ([.meas ⟨some 20000, .timestampedOnReception, none⟩, .plain (some (some 40)) none, .plain (some (some 44)) none,
+      .meas ⟨some 20008, .timestampedOnReception, none⟩, .plain (some (some 48)) none].map Obj.msg)).2 =
+    [false, false, true, true, true] := by
+  decide
+
+example : Obj.docP1 (.meas ⟨some 20000, .gpsTime, none⟩) = none ∧ Obj.docP1 (.meas ⟨some 44, .p1Time, none⟩) = some 44 ∧
+    Obj.docP1 (.meas ⟨some 20000, .senderSystemTime, some 44⟩) = some 44 := by
+  decide
 
 end FeVerif
